@@ -14,6 +14,7 @@ package roundrobin
 //@   safety [C13]
 //
 //@ func (*RoundRobin).Select
+//@   perreturn
 //@   requires rrInv(r)
 //@   modifies r.lastPosition, r.lastStaticWeightPosition
 //@   ensures [C13] (len(r.endpoints) == 0) == (result1 != nil)
